@@ -267,6 +267,10 @@ func runCase(t interface {
 	if err != nil {
 		t.Fatalf("C01 identity violated: %v\nscenario: %s\nreg order %v ordmode=%d", err, desc, s.RegPerm, s.OrdMode)
 	}
+	// names that only resemble a registered one never yield a second version
+	if err := graph.VariantLookups(in); err != nil {
+		t.Fatalf("C01 identity violated: %v\nscenario: %s", err, desc)
+	}
 	if wrap != nil {
 		for n, ws := range wrap.Wrapped {
 			if len(ws) > 0 {
